@@ -124,6 +124,8 @@ func computeRenames(p *Prog) {
 	}
 	sort.Strings(gone)
 	taken := map[*ssa.Function]bool{}
+	dropped := map[*ssa.Function]bool{}
+	recvDropped = map[*ssa.Function]bool{}
 	for _, n := range gone {
 		old := pinned[n]
 		var best *ssa.Function
@@ -134,9 +136,17 @@ func computeRenames(p *Prog) {
 			}
 			id := identityOf(f)
 			if id.Recv != old.Recv || id.Sig != old.Sig {
-				// a method that became a plain function taking its receiver first, or the reverse
-				if (id.Recv == "") == (old.Recv == "") || flatSig(id.Recv, id.Sig) != flatSig(old.Recv, old.Sig) {
+				// a method that became a plain function taking its receiver first, or the reverse - or a method whose
+				// receiver was not needed and was dropped on the way (callers' arguments are then shifted by one, which
+				// CallArgs makes up for with a placeholder)
+				if (id.Recv == "") == (old.Recv == "") {
 					continue
+				}
+				if flatSig(id.Recv, id.Sig) != flatSig(old.Recv, old.Sig) {
+					if !(id.Recv == "" && stripParamNames(id.Sig) == stripParamNames(old.Sig)) {
+						continue
+					}
+					dropped[f] = true
 				}
 			}
 			// a plain function may have moved to another package of the module (and been exported on the way);
@@ -169,6 +179,9 @@ func computeRenames(p *Prog) {
 		taken[best] = true
 		renamed[best.String()] = n
 		restored[n] = best
+		if dropped[best] {
+			recvDropped[best] = true
+		}
 		RenameNotes = append(RenameNotes, strings.ReplaceAll(n, ModPath+"/", "")+" -> "+strings.ReplaceAll(best.String(), ModPath+"/", ""))
 	}
 }
@@ -597,4 +610,20 @@ func isPlainIdent(s string) bool {
 		}
 	}
 	return true
+}
+
+// recvDropped: recorded methods that are now plain functions without their (unused) receiver.
+var recvDropped = map[*ssa.Function]bool{}
+
+// ParamAt: the parameter of fn at the position it had in the recorded function (a receiver that was dropped when a
+// method became a function shifts the positions by one); nil when there is none.
+func ParamAt(fn *ssa.Function, recordedIdx int) *ssa.Parameter {
+	i := recordedIdx
+	if recvDropped[fn] {
+		i--
+	}
+	if i < 0 || i >= len(fn.Params) {
+		return nil
+	}
+	return fn.Params[i]
 }
